@@ -31,6 +31,13 @@ type H struct {
 	// subscription that also records its position): cancellation applies
 	// to it like to any other handler.
 	Replay bool `json:"replay,omitempty"`
+	// FilterCancels: the handler is subscribed with a WithFilter predicate
+	// that accepts every event and cancels the publish context while it is
+	// evaluated (a validating predicate that aborts the publish).  The
+	// predicate runs on the publishing goroutine before the handler would
+	// start, so neither this handler (if synchronous) nor any synchronous
+	// handler after it is started for that publish.
+	FilterCancels bool `json:"filter_cancels,omitempty"`
 }
 
 type Pub struct {
@@ -263,6 +270,22 @@ func Run(c *Case) *vkit.Outcome {
 	for hi, h := range c.Handlers {
 		hi := hi
 		var so []eventbus.SubscribeOption
+		if h.FilterCancels {
+			so = append(so, eventbus.WithFilter(func(e Ev) bool {
+				mu.Lock()
+				ps := pubs[e.ID]
+				mu.Unlock()
+				if ps != nil && ps.cancel != nil {
+					ps.cancel()
+					mu.Lock()
+					if ps.cancelAt < 0 {
+						ps.cancelAt = len(trace)
+					}
+					mu.Unlock()
+				}
+				return true
+			}))
+		}
 		if h.Async {
 			so = append(so, eventbus.Async())
 		}
@@ -415,8 +438,9 @@ func Run(c *Case) *vkit.Outcome {
 				}
 				if hcount[hi] != 1 {
 					// allowed only for handlers after the first sync canceller
+					// (and for the handler whose own predicate cancelled)
 					k := firstSyncCanceller(c)
-					if hi <= k {
+					if hi < k || (hi == k && !c.Handlers[k].FilterCancels) {
 						o.Failf("", "%s: synchronous handler %d (at or before the cancelling handler %d) ran %d times", desc, hi, k, hcount[hi])
 						return o
 					}
@@ -490,7 +514,7 @@ func Run(c *Case) *vkit.Outcome {
 
 func firstSyncCanceller(c *Case) int {
 	for hi, h := range c.Handlers {
-		if h.Cancels && !h.Async {
+		if h.FilterCancels || (h.Cancels && !h.Async) {
 			return hi
 		}
 	}
